@@ -1,5 +1,7 @@
 import Tdms.Spec.Meaning
 import Tdms.Model.Data
+import Tdms.Model.Lazy
+import Tdms.Model.Timestamp
 
 /-!
 # Line protocol of the model executable
@@ -186,11 +188,143 @@ def cmdMeta (args : List String) : String :=
     | .error e => jErr e
   | _ => jObj [("ok", "false"), ("err", jStr "parse")]
 
+/-! ## lazy reads -/
+
+def tOptInt (t : String) : Option (Option Int) :=
+  if t = "N" then some none else (t.toInt?).map some
+
+def jReadOut (r : ReadOut) : String := jObj [("data", jOpt jVals r.data), ("scalers", jScalers r.scalers)]
+def jChanChunk (c : ChanChunk) : String := jObj [("data", jOpt jVals c.data), ("scalers", jOpt jScalers c.scalers)]
+def jRawChunk (c : RawChunk) : String := jArr (c.map fun (p, cc) => jArr [jHex p, jChanChunk cc])
+def jTrace (t : List (Nat × Nat)) : String := jArr ((t.filter (·.2 > 0)).map fun (p, n) => jArr [jNat p, jNat n])
+
+def withOpen (h : String) (k : OpenFile → String) : String :=
+  match ofHex h with
+  | none => jObj [("ok", "false"), ("err", jStr "parse")]
+  | some b =>
+    match openFile b with
+    | .ok f => k f
+    | .error e => jErr e
+
+/-- `wins <hex> <path> off:len …` : each window read on a fresh file position, with its I/O trace -/
+def cmdWins (args : List String) : String :=
+  match args with
+  | h :: ph :: ws =>
+    withOpen h fun f =>
+      match ofHex ph with
+      | none => jObj [("ok", "false"), ("err", jStr "parse")]
+      | some p =>
+        jObj [("ok", "true"), ("results", jArr (ws.map fun w =>
+          match w.splitOn ":" with
+          | [a, b] =>
+            match a.toInt?, tOptInt b with
+            | some off, some len =>
+              match (channelReadData f p off len).run {} with
+              | .ok (some r, st) => jObj [("out", jReadOut r), ("trace", jTrace st.trace)]
+              | .ok (none, st) => jObj [("out", "null"), ("trace", jTrace st.trace)]
+              | .error e => jObj [("err", jStr (errName e))]
+            | _, _ => jObj [("err", jStr "parse")]
+          | _ => jObj [("err", jStr "parse")]))]
+  | _ => jObj [("ok", "false"), ("err", jStr "parse")]
+
+/-- `slices <hex> <path> a:b:c …` -/
+def cmdSlices (args : List String) : String :=
+  match args with
+  | h :: ph :: ws =>
+    withOpen h fun f =>
+      match ofHex ph with
+      | none => jObj [("ok", "false"), ("err", jStr "parse")]
+      | some p =>
+        jObj [("ok", "true"), ("results", jArr (ws.map fun w =>
+          match w.splitOn ":" with
+          | [a, b, c] =>
+            match tOptInt a, tOptInt b, tOptInt c with
+            | some a, some b, some c =>
+              match (channelReadSlice f p a b c).run {} with
+              | .ok (vs, st) => jObj [("out", jVals vs), ("trace", jTrace st.trace)]
+              | .error e => jObj [("err", jStr (errName e))]
+            | _, _, _ => jObj [("err", jStr "parse")]
+          | _ => jObj [("err", jStr "parse")]))]
+  | _ => jObj [("ok", "false"), ("err", jStr "parse")]
+
+def parseOp (t : String) : Option Op :=
+  match t.splitOn "," with
+  | ["I", p, i] => do pure (.index (← ofHex p) (← i.toInt?))
+  | ["S", p, a, b, c] => do pure (.slice (← ofHex p) (← tOptInt a) (← tOptInt b) (← tOptInt c))
+  | ["R", p, o, l] => do pure (.read (← ofHex p) (← o.toInt?) (← tOptInt l))
+  | ["C", p] => do pure (.newChanIter (← ofHex p))
+  | ["F"] => some .newFileIter
+  | ["X", id] => do pure (.next (← id.toNat?))
+  | _ => none
+
+def jOut : Out → String
+  | .value v => jObj [("k", jStr "value"), ("v", jHex v)]
+  | .values vs => jObj [("k", jStr "values"), ("v", jVals vs)]
+  | .readOut r => jObj [("k", jStr "read"), ("v", jOpt jReadOut r)]
+  | .iterId id => jObj [("k", jStr "iter"), ("v", jNat id)]
+  | .chanChunk c off => jObj [("k", jStr "chanchunk"), ("v", jChanChunk c), ("offset", jNat off)]
+  | .fileChunk c offs => jObj [("k", jStr "filechunk"), ("v", jRawChunk c),
+      ("offsets", jArr (offs.map fun (p, n) => jArr [jHex p, jNat n]))]
+  | .stop => jObj [("k", jStr "stop")]
+  | .badIter => jObj [("k", jStr "baditer")]
+  | .error e => jObj [("k", jStr "error"), ("v", jStr (errName e))]
+
+/-- `ops <hex> op op …` : a history on one open file; every op's output and its own I/O trace -/
+def cmdOps (args : List String) : String :=
+  match args with
+  | h :: ops =>
+    withOpen h fun f =>
+      match ops.mapM parseOp with
+      | none => jObj [("ok", "false"), ("err", jStr "parse")]
+      | some ops =>
+        let rec go (st : OpenState) : List Op → List String
+          | [] => []
+          | op :: rest =>
+            let st0 := { st with io := { st.io with trace := [] } }
+            let (st', out) := step f st0 op
+            jObj [("out", jOut out), ("trace", jTrace st'.io.trace)] :: go st' rest
+        jObj [("ok", "true"), ("results", jArr (go {} ops))]
+  | _ => jObj [("ok", "false"), ("err", jStr "parse")]
+
+/-! ## timestamps (C12) -/
+
+open Tdms.Model.Timestamp in
+/-- `tsenc d1 d2 …` : writer model on microseconds since the TDMS epoch -> [seconds, fractions, LE bytes] -/
+def cmdTsEnc (args : List String) : String :=
+  jArr (args.map fun a =>
+    match a.toInt? with
+    | some d =>
+      let (s, f) := encodeFloor d
+      jArr [jInt s, jNat f, jHex (toBytesLE s f)]
+    | none => "null")
+
+open Tdms.Model.Timestamp in
+/-- `tsdec R s:f s:f …` : scalar and array reader models -> [[scalar, array], …] in units of 1/R s since the epoch -/
+def cmdTsDec (args : List String) : String :=
+  match args with
+  | r :: rest =>
+    match r.toNat? with
+    | some R =>
+      jArr (rest.map fun a =>
+        match a.splitOn ":" with
+        | [s, f] =>
+          match s.toInt?, f.toNat? with
+          | some s, some f => jArr [jInt (decode R s f), jInt (decodeArr R s f)]
+          | _, _ => "null"
+        | _ => "null")
+    | none => "null"
+  | _ => "null"
+
 def dispatchBase (cmd : String) (args : List String) : Option String :=
   match cmd with
   | "enc" => some (cmdEnc args)
   | "read" => some (cmdRead args)
   | "meta" => some (cmdMeta args)
+  | "wins" => some (cmdWins args)
+  | "slices" => some (cmdSlices args)
+  | "ops" => some (cmdOps args)
+  | "tsenc" => some (cmdTsEnc args)
+  | "tsdec" => some (cmdTsDec args)
   | "ping" => some (jObj [("ok", "true")])
   | _ => none
 
